@@ -683,3 +683,71 @@ mod tests {
         assert!(big > Q::from_f64_exact(f64::MAX));
     }
 }
+
+// Convenience traits a maintainer might add to the scalar bound of a view (`T: Float + AddAssign`, `Default`,
+// `Sum`, ...): implemented so that such a change still compiles against the exact-arithmetic harness.
+impl Default for Q {
+    fn default() -> Q {
+        Q::R(0, 1)
+    }
+}
+impl std::fmt::Display for Q {
+    fn fmt(&self, f: &mut std::fmt::Formatter<'_>) -> std::fmt::Result {
+        f.write_str(&self.show())
+    }
+}
+impl std::ops::AddAssign for Q {
+    fn add_assign(&mut self, o: Q) {
+        *self = *self + o
+    }
+}
+impl std::ops::SubAssign for Q {
+    fn sub_assign(&mut self, o: Q) {
+        *self = *self - o
+    }
+}
+impl std::ops::MulAssign for Q {
+    fn mul_assign(&mut self, o: Q) {
+        *self = *self * o
+    }
+}
+impl std::ops::DivAssign for Q {
+    fn div_assign(&mut self, o: Q) {
+        *self = *self / o
+    }
+}
+impl std::ops::RemAssign for Q {
+    fn rem_assign(&mut self, o: Q) {
+        *self = *self % o
+    }
+}
+impl std::iter::Sum for Q {
+    fn sum<I: Iterator<Item = Q>>(it: I) -> Q {
+        it.fold(Q::R(0, 1), |a, b| a + b)
+    }
+}
+impl<'a> std::iter::Sum<&'a Q> for Q {
+    fn sum<I: Iterator<Item = &'a Q>>(it: I) -> Q {
+        it.fold(Q::R(0, 1), |a, b| a + *b)
+    }
+}
+impl std::iter::Product for Q {
+    fn product<I: Iterator<Item = Q>>(it: I) -> Q {
+        it.fold(Q::R(1, 1), |a, b| a * b)
+    }
+}
+impl num::traits::FromPrimitive for Q {
+    fn from_i64(n: i64) -> Option<Q> {
+        Some(Q::R(n, 1))
+    }
+    fn from_u64(n: u64) -> Option<Q> {
+        if n <= i64::MAX as u64 {
+            Some(Q::R(n as i64, 1))
+        } else {
+            Some(Q::from_f64_exact(n as f64))
+        }
+    }
+    fn from_f64(n: f64) -> Option<Q> {
+        Some(Q::from_f64_exact(n))
+    }
+}
